@@ -646,6 +646,8 @@ pub struct Stats {
     pub edit_after_gc: bool,
     pub classes: Vec<&'static str>,
     pub other_file_mismatch: usize,
+    pub dead_code_only_mismatch: usize,
+    pub uncompilable_steps: usize,
 }
 
 pub enum Fail {
@@ -708,6 +710,17 @@ fn inc_stuck(s: Stuck, proj: &CorpusProject, c: &Case, k: usize, e: &Edit, rel: 
             detail: json!({"project": proj.label, "gc": c.gc, "trace": trace, "texts_after": cur.files}),
         },
     }
+}
+
+fn is_dead_code_warning(d: &str) -> bool {
+    // "warning|range|This function is never called." and its siblings from the dead-code analysis
+    let mut parts = d.splitn(3, '|');
+    parts.next() == Some("warning") && parts.nth(1).is_some_and(|m| m.starts_with("This ") && (m.contains(" is never ") || m.contains(" are never ")))
+}
+fn mask_dead_code(f: &FileObs) -> FileObs {
+    let mut g = f.clone();
+    g.diagnostics.retain(|d| !is_dead_code_warning(d));
+    g
 }
 
 fn first_diff(a: &[String], b: &[String]) -> String {
@@ -833,9 +846,26 @@ pub fn run_case(corpus: &[CorpusProject], c: &Case, strict_other_files: bool) ->
                 if dbg {
                     eprintln!("[c26] {} fresh done after {:?}", proj.label, t0.elapsed());
                 }
+                if fresh[rel].symbols.is_none() {
+                    // the text does not compile to a program at all (hard syntax error in the root module): a fresh
+                    // server shows nothing, the long-lived one keeps what it showed before - by design; out of the
+                    // oracle's domain (assumption in the evidence), the history goes on
+                    st.uncompilable_steps += 1;
+                    continue;
+                }
                 for r in &rels {
                     let (a, b) = (&inc[r], &fresh[r]);
                     if a == b {
+                        continue;
+                    }
+                    // KNOWN finding (see known_findings.d): the set of dead-code warnings of the incremental server
+                    // differs from a fresh compilation. They are compared separately so that everything else is
+                    // still checked; a difference confined to them is counted and reported as the known finding.
+                    let (a, b) = (&mask_dead_code(a), &mask_dead_code(b));
+                    if a == b {
+                        if r == rel {
+                            st.dead_code_only_mismatch += 1;
+                        }
                         continue;
                     }
                     let what = if a.diagnostics != b.diagnostics {
@@ -892,6 +922,7 @@ pub fn run(ctx: &Ctx) {
     );
     rep.assume("edits arrive one at a time: every didChange is followed by the completion of its compilation before the next one is sent (interleavings are C24's subject)");
     rep.assume("workspaces with several members and packages with dependencies other than std are not in the corpus; corpus packages are at most 5 files / 6 kB");
+    rep.assume("a step whose text yields no program at all in a fresh server (hard syntax error in the root module: the compiler returns no Programs) is not compared: the long-lived server deliberately keeps showing its last results there; the history continues and later steps are compared");
     rep.assume("generated items use only intrinsics (__add, __eq), structs, functions and if expressions, so that they compile without std");
     install_hooks();
     install_worker_panic_hook();
@@ -917,6 +948,15 @@ pub fn run(ctx: &Ctx) {
                     rep.class(if c.gc { "gc_enabled" } else { "gc_disabled" });
                     rep.class_n("didChange_compared", st.changes as u64);
                     rep.class_n("other_file_mismatch_informational", st.other_file_mismatch as u64);
+                    rep.class_n("steps_skipped:text_has_no_program", st.uncompilable_steps as u64);
+                    if st.dead_code_only_mismatch > 0 {
+                        rep.class_n("known:dead-code-warnings-differ(didChange steps)", st.dead_code_only_mismatch as u64);
+                        rep.violation(Violation {
+                            signature: "diagnostics:dead-code-warnings-differ".into(),
+                            summary: format!("project {} gc={}: the dead-code warnings of the edited file differ from a fresh compilation in {} step(s)", pick_project(&corpus, c).label, c.gc, st.dead_code_only_mismatch),
+                            replay: case_json(&corpus, c),
+                        });
+                    }
                     for cl in &st.classes {
                         rep.class(&format!("edit:{cl}"));
                     }
@@ -934,9 +974,23 @@ pub fn run(ctx: &Ctx) {
                     Ok(())
                 }
                 Err(Fail::Violation { signature, summary, detail }) => {
+                    // causal re-test for the known garbage-collection finding: a multi-module history that fails with
+                    // gc_enabled and passes unchanged with gc disabled is attributed to it (and only then)
+                    let multi = pick_project(&corpus, c).model.files.len() >= 2;
+                    if c.gc && multi && !survey {
+                        let mut c2 = c.clone();
+                        c2.gc = false;
+                        if run_case(&corpus, &c2, strict).is_ok() {
+                            let sig = if signature.starts_with("worker-panic:") { format!("gc-only:multi-module:{signature}") } else { "gc-only:multi-module:stale-or-missing-results".to_string() };
+                            rep.class(&format!("known:{sig}"));
+                            rep.violation(Violation { signature: sig, summary, replay: case_json(&corpus, c) });
+                            return Ok(());
+                        }
+                    }
                     if survey {
                         rep.class(&format!("SURVEY gc={} {} :: {}", c.gc, pick_project(&corpus, c).label, signature));
-                        let _ = (&summary, &detail);
+                        let _ = &detail;
+                        eprintln!("SURVEY {}", summary.replace('\n', " "));
                         return Ok(());
                     }
                     Err(format!("{signature}\u{1}{summary}\u{1}{detail}"))
